@@ -1,6 +1,7 @@
 """C06 -- every valid RFC 9535 query is accepted by the parser."""
 import json
 import os
+import re
 from vflib import grammarmodel as GM, facts
 from rules import grammar_common as G
 
@@ -61,3 +62,20 @@ def run(ctx, rep):
     # R3
     from rules import c07
     c07.typing(ctx, rep, only="C06-R3")
+    # R4: nothing bounds what the generated parser may consume
+    from vflib import census, thir as T
+    rep.rule("C06-R4", "no budget on valid queries: the crate never sets pest's global knobs (set_call_limit, set_error_detail): a call "
+             "limit makes long but valid queries fail with `call limit reached`")
+    prog = ctx.prog
+    n = 0
+    for p in sorted(prog.bodies):
+        if prog.is_expansion(p) or "::tests::" in p:
+            continue
+        for x in T.walk(prog.bodies[p]["thir"]["root"]):
+            if x.get("k") == "Call":
+                n += 1
+                if re.search(r"^pest::.*(set_call_limit|set_error_detail)$", x.get("fn") or ""):
+                    rep.bad("C06-R4", "%s|%s" % (prog.owner_fn(p), x["fn"].rsplit("::", 1)[1]), T.loc(x),
+                            "`%s` is called in `%s`: with a call limit a valid query that needs more parser steps (a long union, many segments, "
+                            "a large filter) is rejected" % (x["fn"], prog.owner_fn(p)))
+    rep.ok("C06-R4", "knob-census", "-", "%d call sites examined" % n)
